@@ -123,8 +123,8 @@ func (p *Proof) strCat(guard, a, b *Term) *Term {
 	if b == strLit("") {
 		return a
 	}
-	B.DeclareFun("str.cat", []string{SStr, SStr}, SStr)
-	t := B.App("str.cat", SStr, a, b)
+	B.DeclareFun("gs.cat", []string{SStr, SStr}, SStr)
+	t := B.App("gs.cat", SStr, a, b)
 	if p.strSeen[t.id] {
 		return t
 	}
@@ -144,8 +144,8 @@ func (p *Proof) strSub(guard, s, lo, hi *Term) *Term {
 	if lo.IsConst() && lo.ConstVal().Sign() == 0 && hi == strLen(s) {
 		return s
 	}
-	B.DeclareFun("str.sub", []string{SStr, SBV(64), SBV(64)}, SStr)
-	t := B.App("str.sub", SStr, s, lo, hi)
+	B.DeclareFun("gs.sub", []string{SStr, SBV(64), SBV(64)}, SStr)
+	t := B.App("gs.sub", SStr, s, lo, hi)
 	if p.strSeen[t.id] {
 		return t
 	}
@@ -163,9 +163,9 @@ func (p *Proof) strSub(guard, s, lo, hi *Term) *Term {
 
 // string([]byte)
 func (p *Proof) strOfBytes(st *State, s SliceV) *Term {
-	B.DeclareFun("str.ofarr", []string{SArr(SBV(64), SBV(8)), SBV(64), SBV(64)}, SStr)
+	B.DeclareFun("gs.ofarr", []string{SArr(SBV(64), SBV(8)), SBV(64), SBV(64)}, SStr)
 	a := Select(p.bytesCell(st), s.Ref)
-	t := B.App("str.ofarr", SStr, a, s.Off, s.Len)
+	t := B.App("gs.ofarr", SStr, a, s.Off, s.Len)
 	if p.strSeen[t.id] {
 		return t
 	}
@@ -179,13 +179,8 @@ func (p *Proof) strOfBytes(st *State, s SliceV) *Term {
 
 // []byte(string)
 func (p *Proof) bytesOfStr(st *State, s *Term) SliceV {
-	B.DeclareFun("str.toarr", []string{SStr}, SArr(SBV(64), SBV(8)))
-	a := B.App("str.toarr", SArr(SBV(64), SBV(8)), s)
-	if !p.strSeen[a.id] {
-		p.strSeen[a.id] = true
-		k := B.BoundVar("k", SBV(64))
-		p.assume(True(), Forall([]*Term{k}, Eq(Select(a, k), strAt(s, k))))
-	}
+	kk := B.BoundVar("k", SBV(64))
+	a := Lambda(kk, strAt(s, kk))
 	ref := p.allocRef(st)
 	key := elemsKey(types.Typ[types.Uint8], "")
 	c := p.bytesCell(st)
@@ -433,9 +428,7 @@ func (fr *Frame) havocCall(in ssa.Instruction, name string, args []Value, st *St
 		fr.havocArg(st, a, 0)
 	}
 	// callee may allocate
-	nt := B.Fresh("heaptop", SRef)
-	p.assume(True(), BVUle(st.HeapTop, nt))
-	st.HeapTop = nt
+	st.HeapTop = p.bumpHeapTop(st.HeapTop, "heaptop")
 	return fr.freshResult(st, rt, "r."+sanitize(name))
 }
 
@@ -625,24 +618,18 @@ func (fr *Frame) builtinCopy(in ssa.Instruction, args []Value, st *State) Value 
 	case SliceV:
 		srcArr, srcOff, srcLen = Select(c, s.Ref), s.Off, s.Len
 	case Scalar: // string
-		B.DeclareFun("str.toarr", []string{SStr}, SArr(SBV(64), SBV(8)))
-		srcArr = B.App("str.toarr", SArr(SBV(64), SBV(8)), s.T)
-		if !p.strSeen[srcArr.id] {
-			p.strSeen[srcArr.id] = true
-			k := B.BoundVar("k", SBV(64))
-			p.assume(True(), Forall([]*Term{k}, Eq(Select(srcArr, k), strAt(s.T, k))))
-		}
+		kk := B.BoundVar("k", SBV(64))
+		srcArr = Lambda(kk, strAt(s.T, kk))
 		srcOff, srcLen = BVInt(0, 64), strLen(s.T)
 	default:
 		panic("unsupported copy source")
 	}
 	n = Ite(BVSlt(dst.Len, srcLen), dst.Len, srcLen)
-	// new destination array: fresh array constrained pointwise
-	na := B.Fresh("copied", srt)
+	// new destination array as a lambda (definitional; beta-reduced at reads)
 	old := Select(c, dst.Ref)
 	k := B.BoundVar("k", SBV(64))
 	inRange := And(BVSle(dst.Off, k), BVSlt(k, BVAdd(dst.Off, n)))
-	p.assume(st.Guard, Forall([]*Term{k}, Eq(Select(na, k), Ite(inRange, Select(srcArr, BVAdd(srcOff, BVSub(k, dst.Off))), Select(old, k)))))
+	na := Lambda(k, Ite(inRange, Select(srcArr, BVAdd(srcOff, BVSub(k, dst.Off))), Select(old, k)))
 	st.Heap[key] = Store(c, dst.Ref, na)
 	return Scalar{n}
 }
@@ -773,9 +760,7 @@ func (fr *Frame) callModular(in ssa.Instruction, f *ssa.Function, c *Contract, a
 		env.havocLvalue(m, st)
 	}
 	if c.Allocates || true {
-		nt := B.Fresh("heaptop", SRef)
-		p.assume(True(), BVUle(st.HeapTop, nt))
-		st.HeapTop = nt
+		st.HeapTop = p.bumpHeapTop(st.HeapTop, "heaptop")
 	}
 	res := fr.freshResult(st, rt, "r."+name)
 	env2 := p.calleeEnv(f, c, args, st, old)
@@ -967,9 +952,14 @@ func (fr *Frame) scanEffects(fn *ssa.Function, blocks []*ssa.BasicBlock, e *effe
 					e.heapSort[elemsKey(types.Typ[types.Uint8], "")] = SArr(SRef, SArr(SBV(64), SBV(8)))
 				}
 			case *ssa.Slice:
-				if _, ok := x.X.Type().Underlying().(*types.Pointer); ok {
+				if pt, ok := x.X.Type().Underlying().(*types.Pointer); ok {
 					e.alloc = true
-					e.allHeap = true
+					if at, ok := pt.Elem().Underlying().(*types.Array); ok && !untrackedElem(at.Elem()) {
+						for _, l := range safeLeaves(at.Elem()) {
+							e.heap[elemsKey(at.Elem(), l.Path)] = true
+							e.heapSort[elemsKey(at.Elem(), l.Path)] = SArr(SRef, SArr(SBV(64), l.Sort))
+						}
+					}
 				}
 			case *ssa.Call, *ssa.Defer, *ssa.Go:
 				var cc *ssa.CallCommon
